@@ -87,7 +87,9 @@ def run_case(case, rec, cid):
 ALPHA = "0123456789-+:,.TZWPRYMDHS/ "
 ODD = ["٠", "١", "٩", "۵", "１", "９", "²", "①", "१", "é", "−", "－", "​", "\x00", "\n", "٣"]
 SEEDS_TP = ["2000-01-02T03:04:05Z", "20000102T030405+0100", "2000-W01-1T00:00", "2000-001T12,5", "+0020000102", "1999-12-31T24:00:00-03:30",
-            "2000", "20", "2000-12", "2000W52", "T06", "-W-1", "--0101", "2000-02-29T23:59:59,999999+13:45"]
+            "2000", "20", "2000-12", "2000W52", "T06", "-W-1", "--0101", "2000-02-29T23:59:59,999999+13:45",
+            # mixed notations (a basic date with an extended time or zone and vice versa): refused, but by which code path?
+            "20000101T06:30", "20000101T0630+05:30", "2000-01-01T0630", "2000001T06:30:15,5Z", "2000W011T06:30-03:30", "20000101T::"]
 SEEDS_DUR = ["P1Y2M3DT4H5M6S", "PT0,5H", "P2W", "-P1D", "P0Y", "PT1S", "P0001-02-03T04:05:06", "P00010203T040506", "P1DT", "PT"]
 EXTREME = ["1e400", "6E999", "9" * 320, "1e3", "1.5e2", "0." + "0" * 30 + "1", "0" * 40 + "1", "1e-400", "inf", "nan", "1_0", "٣", "１２"]
 SEEDS_REC = ["R/2000-01-01T00Z/P1D", "R5/2000-01-01T00Z/2000-01-02T00Z", "R3/P1M/2000-03-31T00Z", "R1/20000101T00Z/PT1H", "R/P1Y/2000"]
